@@ -149,7 +149,7 @@ def run(ctx):
                             len(small), len(rows)))
     if not quick:
         ctx.harness_race_run("c07", ["-out", "race.jsonl", "-seed", ctx.seed + 5, "-n", 150, "-cancel", 150], "in the engine under load")
-    if ctx.broken and not ctx.findings and os.path.exists(os.path.join(verif.ROOT, "harness", "bin", "c07")):
+    if ctx.broken and not ctx.findings and os.path.exists(os.path.join(verif.HBIN, "c07")):
         # search harder on the implementation: more runs, several GOMAXPROCS settings
         for gmp, n in (("1", 150), ("2", 150), ("16", 300)):
             for o in run_harness(ctx, n, ctx.seed + 100 + int(gmp), env={"GOMAXPROCS": gmp}, name="search_g%s.jsonl" % gmp):
